@@ -101,6 +101,7 @@ pub fn measure_alloc<T>(f: impl FnOnce() -> T) -> (T, usize, usize) {
 
 thread_local! {
     static LAST_PANIC: std::cell::RefCell<String> = const { std::cell::RefCell::new(String::new()) };
+    static GUARD_DEPTH: Cell<u32> = const { Cell::new(0) };
 }
 
 pub fn install_panic_hook() {
@@ -116,6 +117,11 @@ pub fn install_panic_hook() {
             .location()
             .map(|l| format!("{}:{}", l.file(), l.line()))
             .unwrap_or_default();
+        let guarded = GUARD_DEPTH.try_with(|d| d.get() > 0).unwrap_or(false);
+        if !guarded {
+            // a panic outside a guarded call is a harness bug: show it
+            eprintln!("HARNESS PANIC: {msg} @ {loc}");
+        }
         let _ = LAST_PANIC.try_with(|p| {
             if let Ok(mut p) = p.try_borrow_mut() {
                 *p = format!("{msg} @ {loc}");
@@ -126,7 +132,10 @@ pub fn install_panic_hook() {
 
 /// Call code under test; a panic becomes `Err(message)`.
 pub fn guard<T>(f: impl FnOnce() -> T) -> Result<T, String> {
-    match catch_unwind(AssertUnwindSafe(f)) {
+    GUARD_DEPTH.with(|d| d.set(d.get() + 1));
+    let r = catch_unwind(AssertUnwindSafe(f));
+    GUARD_DEPTH.with(|d| d.set(d.get().saturating_sub(1)));
+    match r {
         Ok(v) => Ok(v),
         Err(_) => Err(LAST_PANIC.with(|p| p.borrow().clone())),
     }
